@@ -18,7 +18,8 @@ IMPORTS = {
         ("C14", ["C14.D1"], "the two places that decide how a map type is rendered agree, so the `skip_serializing_if` predicate names a method of the field's actual type"),
     ],
     "C04": [
-        ("C02", ["C02.D1"], "a tagged enum is recognised only from the shape serde's representation produces (and requires what serde requires)"),
+        ("C02", ["C02.D1", "C02.W2", "C02.D2"], "a tagged enum is recognised only from the shape serde's representation produces (and requires what serde requires); a variant's payload keeps its shape (tuple stays tuple, struct stays struct); alternatives are compared in both directions"),
+        ("C09", ["C09.D8", "C09.D3"], "the mutual-exclusion tests that decide between an untagged enum and a struct of options look at both directions of every pair"),
         ("C03", ["C03.D1", "C03.D2", "C03.D4"], "the serde attributes that fix the wire format (representation, tag/content strings, renames, default/skip pairs) come from the schema's own names and the member's type"),
         ("C08", ["C08.D1"], "renames carry the raw JSON name exactly when the identifier differs"),
         ("C05", ["C05.W2"], "closed objects stay closed and required members stay required"),
@@ -26,10 +27,12 @@ IMPORTS = {
     ],
     "C02": [
         ("C10", ["C10.D1", "C10.D2", "C10.D3", "C10.D4", "C10.D6", "C10.D7"], "the scalar chosen can represent every admitted value, so every valid number/string deserializes"),
+        ("C09", ["C09.D8", "C09.D3"], "the mutual-exclusion tests that decide how an anyOf is rendered look at both directions of every pair"),
         ("C09", ["C09.D5", "C09.D1"], "a merge does not drop enum values of the right JSON type and does not declare a satisfiable conjunction empty: instances valid under the allOf stay representable"),
     ],
     "C03": [
         ("C08", ["C08.D2"], "two properties that sanitise to one field are rejected, not silently merged: no declared member is dropped on the round trip"),
+        ("C02", ["C02.D1"], "a tagged variant is data-less only when the tag is its only member: no declared member is dropped"),
         ("C02", ["C02.W5", "C02.D2"], "sibling subschemas keep types of their own (a value is not rewritten through a sibling's type); an anyOf is only treated as a oneOf when no two alternatives overlap, so no member is dropped by a shadowing variant"),
     ],
     "C05": [
@@ -40,6 +43,7 @@ IMPORTS = {
         ("C10", ["C10.D5"], "a numeric default outside the admitted range is reported when the schema is added"),
     ],
     "C10": [
+        ("C09", ["C09.D8"], "a merged tuple position is constrained only by what the subschemas say about that position: the scalar chosen for it admits every value the conjunction admits"),
         ("C06", ["C06.W3", "C06.D8"], "the numeric default that is range-checked is the one the schema states (annotations are not rewritten before conversion)"),
     ],
     "C14": [
